@@ -91,6 +91,10 @@ Resync(s) ==
                       !.fm = o.fm, !.seenS = ReplaceTop(s.seenS, o.seen)]
   IN [s1 EXCEPT !.key = KeyOf(Abs(s1))]
 
+\* RESYNC=0 in the environment: the model never adopts the code's state -- it stays the TRUTH the history
+\* leads to (used by C01: the moves generated on the code's board are judged against the true position)
+NoResync == "RESYNC" \in DOMAIN IOEnv /\ IOEnv.RESYNC = "0"
+
 Bad(why, d, x) == PrintT(ToJson([bad |-> l, ev |-> Ev.ev, why |-> why, diff |-> d, x |-> x]))
 Skip(why) == PrintT(ToJson([skip |-> l, why |-> why]))
 
@@ -104,7 +108,7 @@ KeyStep(rule) == keyS' = CASE rule = "push" -> Append(keyS, Ev.obs.key)
 Accept(s0, why, rule) ==
   \E s \in {s0} : \E d \in {DiffSet(s, rule)} :     \* (bound variables: evaluated once)
   /\ (IF d = {} THEN TRUE ELSE Bad(why, d, Detail(s)))   \* (IF, not \/: TLC explores both disjuncts of an action)
-  /\ st' = (IF d \cap {"placement", "turn", "cr", "ep", "hm", "fm", "seen"} = {} THEN s ELSE Resync(s))
+  /\ st' = (IF NoResync \/ d \cap {"placement", "turn", "cr", "ep", "hm", "fm", "seen"} = {} THEN s ELSE Resync(s))
   /\ KeyStep(rule) /\ mode' = "ok" /\ Advance
 \* a wrong result value: report, continue with the model's successor
 Reject(s, why, x, rule) ==
@@ -150,6 +154,16 @@ TCloneUndo ==
      ELSE \E s \in {UndoMove(ToggleTurn(IF Ev.reg THEN Uncount(st) ELSE st), MvOf(Ev.m))} : \E d \in {DiffSet(s, "none") \ {"history"}} :
           /\ (IF d = {} THEN TRUE ELSE Bad("taking the last move back on a copy of the board does not give the state before the move", d, Detail(s)))
           /\ Keep /\ mode' = "ok" /\ Advance
+
+\* the moves a freshly created generator returns on the code's board at this point of the history must be
+\* the legal moves of the position the history leads to (C01 "reachable by legal play", undos included)
+TMoves ==
+  /\ Ev.ev = "Moves" /\ mode = "ok"
+  /\ \E L \in {Legal(Abs(st))} : \E got \in {{ MvOf(Ev.mv[j]) : j \in 1..Len(Ev.mv) }} :
+       IF Ev.panic # "" THEN Broken("generating the moves of a position reached by legal moves and undos panicked", Ev.panic)
+       ELSE IF got # L THEN Reject(st, "the moves generated on the board differ from the legal moves of the position the history leads to", [extra |-> got \ L, missing |-> L \ got], "stable")
+       ELSE IF Cardinality(got) # Len(Ev.mv) THEN Reject(st, "duplicate moves", Len(Ev.mv), "stable")
+       ELSE Accept(st, "generating moves changed the caller's board", "stable")
 
 TToggle == Ev.ev = "Toggle" /\ mode = "ok" /\ Accept(ToggleTurn(st), "state after toggle_turn differs", "stable")
 
@@ -422,7 +436,7 @@ TGEnding ==
 
 Init == l = 2 /\ st = EmptyEngine /\ keyS = << >> /\ mode = "skip"
 Next == l <= NRec /\ (TReset \/ TSkipped \/ TApply \/ TUndo \/ TToggle \/ TCount \/ TUncount \/ TQuery \/ TEnding
-                       \/ TGReset \/ TGToggle \/ TCoordBatch \/ TCoord \/ TLabelBatch \/ TLabel \/ TEngineMove \/ TGEnding \/ TBookEdges \/ TSearch \/ TCli \/ TCliReset \/ TWatch \/ TWatchEnd \/ TBridge \/ TBridgeEnd \/ TClone \/ TCloneUndo
+                       \/ TGReset \/ TGToggle \/ TCoordBatch \/ TCoord \/ TLabelBatch \/ TLabel \/ TEngineMove \/ TGEnding \/ TBookEdges \/ TSearch \/ TCli \/ TCliReset \/ TWatch \/ TWatchEnd \/ TBridge \/ TBridgeEnd \/ TClone \/ TCloneUndo \/ TMoves
                        \/ TEReset \/ TPut \/ TRemove \/ TLoseRights \/ TPushEp \/ TPopEp)
 Spec == Init /\ [][Next]_vars
 
